@@ -9,11 +9,23 @@ durations together with every number text and every text to be parsed; the rebui
 hundred cases per process (one `mlr put` and one verb chain per chunk, under rotating TZ settings: the GMT functions must
 not depend on them); CalendarObs judges every observed text with TLC.
 
+The zone section (Zones.tla, ZonesCases.tla, ZonesGen.tla, ZonesMC.tla, ZonesObs.tla) does the same for the local-time
+functions on a TABULATED model of 13 IANA zones: ZonesMC proves the laws of the table (lookup, inverse image with gaps and
+overlaps, %z round trip), ZonesGen emits instants around every transition of the chosen years with every text to be
+parsed and a setting that says how the zone is named (function argument, ENV["TZ"] assignment, --tz, TZ - the other routes
+carrying different zones), the binary evaluates ~80 probes per instant, ZonesObs decides which zone applies and judges
+every text. The table is compared, as text, with what `zdump -v` prints for the tz database installed on the machine.
+
 Python only spells probes as mlr source (tables below), splits the output lines and moves texts around: no calendar
-arithmetic, no expected values."""
+arithmetic, no zone arithmetic, no expected values.
+
+Development aids: VERIF_C16_MLR=<binary> judges another binary (e.g. one built from a scratch copy of the tree with a fault
+put in); VERIF_C16_SECTIONS=zones runs the zone section alone."""
 import copy
 import json
 import os
+import shutil
+import subprocess
 import time
 from concurrent.futures import ThreadPoolExecutor
 
@@ -230,12 +242,314 @@ def fmt_key(p):
     return fmt_text(p) if isinstance(p, dict) else ""
 
 
+
+# ---- the zone section: spelling tables ------------------------------------------------------------------------------
+Z_NOZONE, Z_OWN, Z_ALT, Z_OWNNAME, Z_UTCNAME = 10000, 9999, 9998, 9997, 9996
+ZONEINFO = {Z_NOZONE: "none", Z_OWN: "own offset", Z_ALT: "other offset of the zone", Z_OWNNAME: "own name", Z_UTCNAME: "UTC name"}
+# functions that take the zone as an extra last argument (route "arg")
+Z_TIMES = {"sec2localtime": "t", "sec2localtime.h": "th", "nsec2localtime": "tn"}
+Z_FORMAT = {"strftime_local": ("strftime_local", "t"), "strftime_local.h": ("strftime_local", "th"), "strfntime_local": ("strfntime_local", "tn")}
+
+
+def zexpr(p, i, arg):
+    """DSL source of probe i (1-based) of a zone case; arg: the zone is handed to the function itself (as $z)."""
+    fn, k = p["fn"], p["k"]
+    f = dsl_str(fmt_text(p))
+    x = "$x%d" % i
+    z = ", $z" if arg else ""
+    if fn in Z_TIMES:
+        fname = "nsec2localtime" if fn == "nsec2localtime" else "sec2localtime"
+        if arg:
+            return "%s($%s, %d, $z)" % (fname, Z_TIMES[fn], k)
+        return "%s($%s)" % (fname, Z_TIMES[fn]) if k == 0 else "%s($%s, %d)" % (fname, Z_TIMES[fn], k)
+    if fn == "sec2localdate":
+        return "sec2localdate($t%s)" % z
+    if fn == "nsec2localdate":
+        return "nsec2localdate($tn%s)" % z
+    if fn in Z_FORMAT:
+        return "%s($%s, %s%s)" % (Z_FORMAT[fn][0], Z_FORMAT[fn][1], f, z)
+    if fn in ("gmt2localtime", "localtime2sec", "localtime2nsec", "localtime2gmt"):
+        return "%s(%s%s)" % (fn, x, z)
+    if fn in ("strptime_local", "strpntime_local"):
+        return "%s(string(%s), %s%s)" % (fn, x, f, z)
+    if fn == "strptime_local.rt":
+        return "strptime_local(strftime_local($t, %s%s), %s%s)" % (f, z, f, z)
+    if fn == "strpntime_local.rt":
+        return "strpntime_local(strfntime_local($tn, %s%s), %s%s)" % (f, z, f, z)
+    local = "sec2localtime($t, 0, $z)" if arg else "sec2localtime($t)"
+    if fn == "localtime2sec.rt":
+        return "localtime2sec(%s%s)" % (local, z)
+    if fn == "localtime2gmt.rt":
+        return "localtime2gmt(%s%s)" % (local, z)
+    if fn == "gmt2localtime.rt":
+        return "gmt2localtime(sec2gmt($t)%s)" % z
+    if fn == "sec2localtime.rt":
+        return "sec2localtime(localtime2sec(%s%s), 0, $z)" % (x, z) if arg else "sec2localtime(localtime2sec(%s))" % x
+    # the GMT functions, in the same process
+    if fn == "sec2gmt":
+        return "sec2gmt($t)"
+    if fn == "sec2gmtdate":
+        return "sec2gmtdate($t)"
+    if fn == "strftime":
+        return "strftime($t, %s)" % f
+    if fn == "gmt2sec":
+        return "gmt2sec(%s)" % x
+    if fn == "strptime":
+        return "strptime(string(%s), %s)" % (x, f)
+    raise ValueError(fn)
+
+
+# ENV["TZ"] is assigned only when the value wanted for the record differs from the last one assigned: later records run
+# under an assignment made while an earlier record was processed
+Z_PRELUDE = 'begin { @e = "" } if ($e != "" && $e != @e) { ENV["TZ"] = $e; @e = $e } '
+
+
+def zone_jobs(mlr, probes, cases):
+    """One mlr process for a list of zone cases that share the process-level setting (--tz flag, TZ variable) and the
+    route; the value to assign to ENV["TZ"] and the zone argument travel in the fields e and z of each record."""
+    setting = cases[0]["set"]
+    arg = setting["arg"] != ""
+    exprs = [(i, zexpr(p, i, arg)) for i, p in enumerate(probes, start=1)]
+    rows = []
+    for c in cases:
+        f = [("t", c.get("t", "")), ("th", c.get("th", "")), ("tn", c.get("tn", "")), ("z", c["set"]["arg"]), ("e", c["set"]["env"])]
+        f += [("x%d" % i, c["x"][i - 1]) for i in range(1, len(probes) + 1) if c["x"][i - 1] != ""]
+        rows.append(row_text(f))
+    flags = ["--tz", setting["flag"]] if setting["flag"] else []
+    return [{"argv": [mlr] + IO + flags + ["put", "-q", put_program(exprs, Z_PRELUDE)], "stdin": "".join(rows),
+             "env": {"TZ": setting["var"]}, "timeout_ms": 120000, "max_out": 256 << 20}]
+
+
+def zone_table_guard(segs):
+    """The table of Zones.tla against the tz database of this machine: the specification prints, for every transition it
+    tabulates, the two lines `zdump -v` prints for it; here they are compared as text (sets of whitespace-normalised
+    lines within the segment's years), and the state at the start of each segment with `date`. A difference means the
+    installed database is not the one tabulated: no verdict about mlr is possible then."""
+    if not shutil.which("zdump"):
+        return {"checked": False, "why": "zdump not installed"}
+    lines = diffs = 0
+    for sg in segs:
+        years = set(sg["years"])
+        p = subprocess.run(["zdump", "-v", "-c", "%d,%d" % (sg["y1"], sg["y2"] + 1), sg["zone"]], stdout=subprocess.PIPE,
+                           stderr=subprocess.PIPE, text=True, timeout=120)
+        have = set()
+        for ln in p.stdout.splitlines():
+            w = ln.split()
+            if " UT = " in ln and "isdst=" in ln and len(w) > 5 and w[5] in years:
+                have.add(" ".join(w[1:]))
+        want = set()
+        for ln in sg["lines"]:
+            w = ln.split()
+            if w[4] in years:
+                want.add(" ".join(w))
+        lines += len(want)
+        if have != want:
+            diffs += 1
+            vlib.log("[c16] zone table differs from zdump for %s %d..%d: only zdump %r, only table %r" % (
+                sg["zone"], sg["y1"], sg["y2"], sorted(have - want)[:4], sorted(want - have)[:4]))
+        if shutil.which("date"):
+            q = subprocess.run(["date", "-d", "%d-01-01 00:00:00 UTC" % sg["y1"], "+%z %Z"], env={"TZ": sg["zone"], "PATH": os.environ.get("PATH", "/usr/bin:/bin")},
+                               stdout=subprocess.PIPE, stderr=subprocess.PIPE, text=True, timeout=60)
+            if q.returncode == 0 and q.stdout.strip() != sg["init"]:
+                diffs += 1
+                vlib.log("[c16] zone table differs from date(1) for the start of %s %d: %r vs %r" % (sg["zone"], sg["y1"], q.stdout.strip(), sg["init"]))
+    head = ""
+    try:
+        with open("/usr/share/zoneinfo/tzdata.zi") as f:
+            head = f.readline().strip().lstrip("# ")
+    except OSError:
+        pass
+    return {"checked": True, "zdump_lines_compared": lines, "segments_differing": diffs, "installed_tzdata": head}
+
+
+class ZoneSection:
+    """The zone part of the check, in the steps of run(): start (TLC: laws and case generation, in the pool), jobs (mlr
+    processes), judge (TLC on the observations, violations, self-test), finish (the laws, the coverage block)."""
+
+    def __init__(self, tier, seed, pool):
+        self.thorough = tier == "thorough"
+        self.consts = {"Tier": '"%s"' % tier, "Seed": str(seed), "NRand": str(3000 if self.thorough else 150)}
+        self.law_consts = dict(self.consts, DayStep="1" if self.thorough else "5", NearStep="300" if self.thorough else "900",
+                               Parts="16" if self.thorough else "4")
+        self.f_laws = pool.submit(b3.check_laws, "ZonesMC", self.law_consts, ("Laws",), 3000 if self.thorough else 1200)
+
+        def gen(init, next_, inv):
+            return pool.submit(b3.gen_cases, "ZonesGen", self.consts, 3000, 2, inv, None, None, None, init, next_)
+        self.gens = {"space": gen("InitSpace", "Stay", "EmitSpace"), "loc": gen("InitLoc", "Stay", "EmitLoc"),
+                     "rand": gen("InitRand", "NextRand", "EmitRand"), "gap": gen("InitGap", "Stay", "EmitGap")}
+        self.states = self.transitions = 0
+        self.cov = {"tlc_runs": []}
+
+    def jobs(self, mlr):
+        out = {}
+        for name, fut in self.gens.items():
+            printed, r = fut.result()
+            out[name] = printed
+            self.states += r.distinct
+            self.transitions += r.generated
+            self.cov["tlc_runs"].append({"module": "ZonesGen", "family": name, "cases": len(printed), "result": "no error"})
+        space = out["space"][0]
+        self.space = space
+        self.probes = {"loc": space["loc"], "gap": space["gap"]}
+        guard = zone_table_guard(space["segs"])
+        self.cov["table_vs_installed_tz_database"] = guard
+        if guard.get("segments_differing"):
+            raise vlib.Inconclusive("the zone table of Zones.tla does not describe the tz database installed on this machine (%s): "
+                                    "%d segment(s) differ from zdump/date" % (guard.get("installed_tzdata"), guard["segments_differing"]))
+        seen, cases = set(), []
+        for c in out["loc"] + out["rand"] + out["gap"]:
+            key = (c["kind"], c["zone"], c["n"], c["s"])
+            if key not in seen:
+                seen.add(key)
+                cases.append(c)
+        # processes: cases that share the route and the process-level setting, in the order zone, time
+        groups = {}
+        for c in cases:
+            g = (c["kind"], c["route"], c["set"]["flag"], c["set"]["var"])
+            groups.setdefault(g, []).append(c)
+        self.plan, js = [], []
+        size = 300 if self.thorough else 130
+        for g in sorted(groups):
+            part_all = sorted(groups[g], key=lambda c: (c["zone"], c["n"], c["s"]))
+            for part in chunks(part_all, size):
+                j = zone_jobs(mlr, self.probes[g[0]], part)
+                self.plan.append((g[0], part, len(js), len(j)))
+                js += j
+        self.cases = cases
+        self.mlr_jobs = js
+        return js
+
+    def judge(self, res, V):
+        t0 = time.time()
+        obs, meta = [], []
+        for kind, part, j0, nj in self.plan:
+            rs = res[j0:j0 + nj]
+            for r, job in zip(rs, self.mlr_jobs[j0:j0 + nj]):
+                if r["timed_out"] or r["exit"] != 0:
+                    crash = r["timed_out"] or "panic" in r["stderr"] or "goroutine " in r["stderr"]
+                    V.violation({"section": "zones", "why": "crash" if crash else "fatal error", "family": kind, "route": part[0]["route"]},
+                                {"argv": job["argv"][1:], "env": job.get("env"), "exit": r["exit"], "timed_out": r["timed_out"],
+                                 "stderr": r["stderr"][:800], "first_input_rows": job["stdin"][:600]})
+            outs = outs_of(len(self.probes[kind]), rs, len(part))
+            for c, out in zip(part, outs):
+                if kind == "loc":
+                    obs.append({"kind": "loc", "set": c["set"], "n": c["n"], "s": c["s"], "f": c["f"], "out": out})
+                else:
+                    obs.append({"kind": "gap", "set": c["set"], "an": c["an"], "as": c["as"], "n": c["n"], "s": c["s"], "out": out})
+                meta.append(c)
+        per = max(40, min(1500, len(obs) // 24 + 1))
+        bad, n = b3.validate("ZonesObs", obs, self.consts, chunk=per, threads=int(os.environ.get("VERIF_JOBS", 8)))
+        self.states += n
+        self.transitions += n
+        self.cov["validation_wall_s"] = round(time.time() - t0, 1)
+        vlib.log("[c16] zones: %d observations judged by TLC in %.1fs, %d reports" % (len(obs), time.time() - t0, len(bad)))
+        if os.environ.get("C16_DUMP"):
+            with open(os.environ["C16_DUMP"] + ".zones", "w") as f:
+                json.dump({"obs": obs, "bad": bad, "probes": self.probes, "cases": meta, "jobs": [j["argv"][1:] for j in self.mlr_jobs[:3]],
+                           "stderr": [r["stderr"][:300] for r in res if r["stderr"]][:10]}, f)
+        for idx, p in bad:
+            c = meta[idx]
+            i = p["i"]
+            pr = self.probes[c["kind"]][i - 1] if i >= 1 else {"fn": "", "k": 0, "fmt": [], "off": Z_NOZONE}
+            zi = ZONEINFO.get(pr["off"], "fixed offset")
+            seen_text = obs[idx]["out"][i - 1] if i >= 1 else ""
+            key = {"section": "zones", "fn": pr["fn"], "fmt": fmt_text(pr), "k": pr["k"], "zone_info_in_text": zi, "why": p["why"],
+                   "class": p["cls"][0] if p["cls"] else "", "zone_name": p["cls"][1] if len(p["cls"]) > 1 else "",
+                   "zone_name_position": ("last" if pr["fmt"] and pr["fmt"][-1] == "%Z" else "inner") if "%Z" in pr["fmt"] else "",
+                   "error": seen_text == "(error)", "route": c["route"]}
+            detail = {"zone": c["zone"], "setting": c["set"], "mlr": zexpr(pr, i, c["set"]["arg"] != "") if i >= 1 else "",
+                      "input_text": c["x"][i - 1] if i >= 1 else "", "observed": obs[idx]["out"][i - 1] if i >= 1 else obs[idx]["out"],
+                      "offset_minutes_in_text": pr["off"] if pr["off"] < Z_UTCNAME else None}
+            if c["kind"] == "loc":
+                detail["instant"] = {"days": c["n"], "second_of_day": c["s"], "nanos": c["f"], "epoch_seconds": c["t"], "gmt": c["iso"]}
+            else:
+                detail["local_time_in_gap"] = c["local"]
+            V.violation(key, detail)
+
+        # non-vacuity: texts observed for one instant, claimed for the instant one hour later, must be reported
+        nbad = {}
+        for idx, _ in bad:
+            nbad[idx] = nbad.get(idx, 0) + 1
+        good = min((k for k, o in enumerate(obs) if o["kind"] == "loc" and o["s"] < 82800), key=lambda k: nbad.get(k, 0), default=None)
+        ggap = [k for k, o in enumerate(obs) if o["kind"] == "gap" and k not in nbad]
+        if good is None:
+            raise vlib.Inconclusive("no zone observation to run the self-test on")
+        c1 = copy.deepcopy(obs[good])
+        c1["s"] += 3600
+        tests = [c1, obs[good]]
+        if len(ggap) >= 2:
+            a, b_ = copy.deepcopy(obs[ggap[0]]), copy.deepcopy(obs[ggap[-1]])
+            a["out"][0], b_["out"][0] = obs[ggap[-1]]["out"][0], obs[ggap[0]]["out"][0]       # answers of two different gaps exchanged
+            tests += [a, obs[ggap[0]]]
+        sb, _ = b3.validate("ZonesObs", tests, self.consts)
+        per_line = [sum(1 for x in sb if x[0] == k) for k in range(len(tests))]
+        st = {"ok": per_line[0] >= per_line[1] + 30 and (len(tests) == 2 or (per_line[2] >= 1 and per_line[3] == 0)),
+              "reports": {"instant claimed for one hour later": per_line[0], "the instant itself": per_line[1]}}
+        if len(tests) == 4:
+            st["reports"].update({"gap case with the answer of another gap": per_line[2], "the gap case itself": per_line[3]})
+        self.cov["obs_selftest"] = st
+        if st["ok"] is False:
+            raise vlib.Inconclusive("zone observation self-test failed: %r" % st)
+        self.obs, self.meta, self.bad = obs, meta, bad
+
+    def finish(self):
+        laws = self.f_laws.result()
+        vlib.log("[c16] zones laws: %d states in %.1fs" % (laws.distinct, laws.wall))
+        self.cov["tlc_runs"].append({"module": "ZonesMC", "constants": self.law_consts, "distinct_states": laws.distinct,
+                                     "wall_s": round(laws.wall, 1), "result": laws.violated or "no error"})
+        if laws.violated:
+            raise vlib.Inconclusive("the zone specification itself violates a law of the property: %s" % laws.violated)
+        self.states += laws.distinct
+        self.transitions += laws.generated
+        segs = self.space["segs"]
+        loc = [c for c in self.meta if c["kind"] == "loc"]
+        gaps = [c for c in self.meta if c["kind"] == "gap"]
+        evaluations = sum(len(o["out"]) for o in self.obs)
+        classes, routes = {}, {}
+        for c in loc:
+            classes[c["cls"]] = classes.get(c["cls"], 0) + 1
+        for c in self.meta:
+            routes[c["route"]] = routes.get(c["route"], 0) + 1
+        k = next((i for i, c in enumerate(self.meta) if c["kind"] == "loc" and c["cls"] == "overlap-second"), 0)
+        some = [0, 14, 38, 50, 59, 71]
+        sample = {"zone": self.meta[k]["zone"], "setting": self.meta[k]["set"], "epoch_seconds": self.meta[k].get("t"), "class": self.meta[k].get("cls"),
+                  "observed": {zexpr(self.probes["loc"][i], i + 1, self.meta[k]["set"]["arg"] != "").replace("$x%d" % (i + 1), dsl_str(self.meta[k]["x"][i])):
+                               self.obs[k]["out"][i] for i in some if i < len(self.probes["loc"])}}
+        self.cov.update({
+            "zones": len(self.space["zones"]), "zone_names": self.space["zones"], "segments": len(segs),
+            "transitions_tabulated": sum(sg["transitions"] for sg in segs),
+            "gaps_tabulated": sum(sg["gaps"] for sg in segs), "overlaps_tabulated": sum(sg["overlaps"] for sg in segs),
+            "transitions_exercised": len({(c["k"], c["near"]) for c in loc if c["near"]}),
+            "instants": len(loc), "instants_by_class": classes, "local_times_inside_gaps": len(gaps), "cases_by_route": routes,
+            "functions": sorted({p["fn"].split(".")[0] for p in self.probes["loc"] + self.probes["gap"]}),
+            "probes": {"loc": len(self.probes["loc"]), "gap": len(self.probes["gap"])},
+            "evaluations": evaluations, "mlr_processes": len(self.mlr_jobs),
+            "distinct_nontrivial": len({json.dumps(o["out"]) for o in self.obs}),
+            "sample": sample,
+        })
+        return self.cov
+
+
+ZONE_ASSUMPTIONS = [
+    "zones: the local-time functions are decided on a TABULATED model (Zones.tla): 13 IANA zones in 19 ranges of whole years between 1967 "
+    "and 2037, written down from the rules of tz database release 2025b and compared line by line with `zdump -v` and `date` of this machine on "
+    "every run; nothing is decided about other zones, other years, or a machine whose tz database differs (then the check is inconclusive)",
+    "zones: a local text without zone information inside a fall-back overlap may denote either instant (the reference does not say which); "
+    "inside a spring-forward gap the reference is silent: the reading with the offset before, with the offset after, the transition instant "
+    "or (error) are all admitted; %Z is parsed only for alphabetic abbreviations and \"UTC\"",
+    "zones: an empty TZ (the system's local zone) and invalid zone names are not exercised; leap seconds do not exist in the model",
+]
+
+
 # ---- the check ----------------------------------------------------------------------------------------------------
 
 def run(tier, seed):
     t0 = time.time()
     V = vlib.Verdicts(PROP)
-    mlr = vlib.build_mlr()
+    mlr = os.environ.get("VERIF_C16_MLR") or vlib.build_mlr()
+    sections = [x for x in os.environ.get("VERIF_C16_SECTIONS", "calendar,zones").split(",") if x]
+    if "calendar" not in sections:
+        return run_zones_only(tier, seed, mlr, V, t0)
     thorough = tier == "thorough"
     cov = {"tlc_runs": [], "samples": []}
     nrand = 6000 if thorough else 400
@@ -247,8 +561,9 @@ def run(tier, seed):
     else:
         law_consts = dict(consts, BlockLo="600", BlockHi="766", BlockSize="1000", SplitRange="100000")
         law_rule = "every day from 1643-11 to 2100-12 (167 blocks of 1000 days: a full 400-year cycle and the century years 1700-2100)"
-    pool = ThreadPoolExecutor(8)
+    pool = ThreadPoolExecutor(10)
     f_laws = pool.submit(b3.check_laws, "CalendarMC", law_consts, ("Laws",), 3000 if thorough else 900)
+    Z = ZoneSection(tier, seed, pool) if "zones" in sections else None
 
     def gen(init, next_, inv):
         return pool.submit(b3.gen_cases, "CalendarGen", consts, 3000, 2, inv, None, None, None, init, next_)
@@ -314,11 +629,13 @@ def run(tier, seed):
         plan.append(("non", nons, len(jobs), len(js), tzc["name"]))
         jobs += js
     t_run = time.time()
-    res = vlib.run_cases(jobs)
-    vlib.confirm_timeouts(jobs, res)
+    zjobs = Z.jobs(mlr) if Z else []
+    allres = vlib.run_cases(jobs + zjobs)
+    vlib.confirm_timeouts(jobs + zjobs, allres)
+    res, zres = allres[:len(jobs)], allres[len(jobs):]
     cov["mlr_wall_s"] = round(time.time() - t_run, 1)
-    vlib.log("[c16] %d instants, %d durations, %d non-numbers; %d mlr processes in %.1fs (t+%.0fs)" % (
-        len(instants), len(durs), len(nons), len(jobs), time.time() - t_run, time.time() - t0))
+    vlib.log("[c16] %d instants, %d durations, %d non-numbers, %d zone cases; %d + %d mlr processes in %.1fs (t+%.0fs)" % (
+        len(instants), len(durs), len(nons), len(Z.cases) if Z else 0, len(jobs), len(zjobs), time.time() - t_run, time.time() - t0))
 
     obs, meta = [], []           # meta: (family, case, tz name, argv of the put job)
     for family, part, j0, nj, tzname in plan:
@@ -406,7 +723,15 @@ def run(tier, seed):
     if st["ok"] is False:
         raise vlib.Inconclusive("observation self-test failed: %r" % st)
 
+    # ---- the zone section: judgement by TLC, violations, self-test -------------------------------------------------------
+    if Z:
+        Z.judge(zres, V)
+
     # ---- the laws ----------------------------------------------------------------------------------------------------
+    if Z:
+        cov["zones"] = Z.finish()
+        states += Z.states
+        transitions += Z.transitions
     laws = f_laws.result()
     vlib.log("[c16] laws: %d states in %.1fs (t+%.0fs)" % (laws.distinct, laws.wall, time.time() - t0))
     pool.shutdown()
@@ -448,14 +773,17 @@ def run(tier, seed):
                                "observed": {"datediff(t1, t2, %s)" % dsl_str(u): obs[kd]["out"][i] for i, u in enumerate(diff_units)}})
     cov["samples"] += [sample(k) for k in idxs]
     cov.update({
-        "states": states, "transitions": transitions, "traces_validated_against_impl": len(obs),
-        "evaluations": evaluations, "evaluations_decided_by_the_specification": asked, "distinct_nontrivial": nontrivial,
+        "states": states, "transitions": transitions, "traces_validated_against_impl": len(obs) + (len(Z.obs) if Z else 0),
+        "evaluations": evaluations + (cov["zones"]["evaluations"] if Z else 0), "evaluations_gmt_and_splitters": evaluations,
+        "evaluations_decided_by_the_specification": asked, "distinct_nontrivial": nontrivial + (cov["zones"]["distinct_nontrivial"] if Z else 0),
         "rule": "instants: windows of +-%d days around 1 March of %s leap-rule anchor years and around 1 January of %s years, month ends, "
                 "the epoch, 0001-01-01, 9999-12-31, the ends of 32-bit seconds and 64-bit nanoseconds, each with 00:00:00, 23:59:59 and a "
                 "rotating selection of boundary seconds, plus %d seeded random instants; x %d probes (seconds family) / %d probes "
                 "(nanoseconds family, instants within int64 nanoseconds, 2-3 sub-second values each); durations: %d (sign x days x rest "
                 "grid plus seeded random) x %d probes; %d pairs of dates x 8 datediff units; %d non-numbers x %d probes x %d TZ settings. non-trivial = distinct (kind, observed "
-                "texts) of instant and duration cases" % (
+                "texts) of instant and duration cases. Zones: see the zones block (instants within 3 hours of every tabulated transition of "
+                "the chosen years at 30-minute (quick) / 15-minute (thorough) steps and one second either side, ordinary and seeded random "
+                "instants, local times inside gaps; each under one of four routes of naming the zone)" % (
                     4 if thorough else 2, "36" if thorough else "11", "36" if thorough else "14", nrand, len(probes["sec"]),
                     len(probes["ns"]), len(durs), len(dur_probes), len(diffs), len(nons), len(non_probes), len(TZ_CONFIGS)),
         "exhaustive": False, "exhaustive_note": "the laws on the specification are exhaustive over their stated ranges; the binding to the "
@@ -465,11 +793,10 @@ def run(tier, seed):
         "tz_settings": [t["name"] for t in TZ_CONFIGS],
     })
     rc = V.finish()
-    vlib.write_evidence(PROP, tier, seed, time.time() - t0, cov, [
-        "only the integer part of the property is decided: the proleptic Gregorian calendar in GMT for the years 1..9999 and the d/h/m/s "
-        "splitters; IANA zones, DST, the *_local functions, gmt2localtime/localtime2gmt, datediff and the rounding of non-integer float "
-        "seconds are not decided (TLC has neither zone data nor floating point)",
-        "--tz / TZ / ENV[\"TZ\"] are only checked for NOT affecting the GMT functions and verbs",
+    vlib.write_evidence(PROP, tier, seed, time.time() - t0, cov, ZONE_ASSUMPTIONS + [
+        "only the integer part of the property is decided: the proleptic Gregorian calendar in GMT for the years 1..9999, the d/h/m/s "
+        "splitters, and the local-time functions on the tabulated zones; datediff across zones and the rounding of non-integer float "
+        "seconds are not decided (TLC has no floating point)",
         "texts come from Calendar.tla / TimeSplit.tla, written from reference-dsl-time.md and the function help texts; where those leave "
         "a detail open (padding of %Y below year 1000, padding of inner d/h/m/s units, texts of negative durations, leading units of "
         "fsec2dhms, int-or-float spelling of strptime results) every reading is accepted",
@@ -477,6 +804,25 @@ def run(tier, seed):
         "%y, %s and fractional seconds other than %f with strpntime are not parsed",
         "the harness spells probes as mlr source by a fixed table and splits tab-separated output; it does no calendar arithmetic",
     ], len(V.violations))
+    return rc
+
+
+def run_zones_only(tier, seed, mlr, V, t0):
+    """VERIF_C16_SECTIONS=zones: the zone section alone (development aid, e.g. against a binary with a seeded fault)."""
+    vlib.build_harness("runner", tags="")
+    pool = ThreadPoolExecutor(6)
+    Z = ZoneSection(tier, seed, pool)
+    js = Z.jobs(mlr)
+    res = vlib.run_cases(js)
+    vlib.confirm_timeouts(js, res)
+    Z.judge(res, V)
+    cov = {"zones": Z.finish(), "sections": ["zones"]}
+    pool.shutdown()
+    cov.update({"states": Z.states, "transitions": Z.transitions, "traces_validated_against_impl": len(Z.obs), "samples": [cov["zones"]["sample"]],
+                "evaluations": cov["zones"]["evaluations"], "distinct_nontrivial": cov["zones"]["distinct_nontrivial"],
+                "rule": "the zone section only (VERIF_C16_SECTIONS=zones)", "exhaustive": False})
+    rc = V.finish()
+    vlib.write_evidence(PROP, tier, seed, time.time() - t0, cov, ZONE_ASSUMPTIONS, len(V.violations))
     return rc
 
 
